@@ -76,6 +76,8 @@ func (r *reNode) goSyntax() string {
 		return regexp.QuoteMeta(string(r.c))
 	case '.':
 		return "."
+	case 's': // a literal written without grouping (directed cases)
+		return regexp.QuoteMeta(string(r.cls))
 	case 'k':
 		return "[" + string(r.cls) + "]"
 	case '&':
@@ -92,6 +94,12 @@ func (r *reNode) tokens() string {
 		return fmt.Sprintf("c%d", r.c)
 	case '.':
 		return "."
+	case 's':
+		t := fmt.Sprintf("c%d", r.cls[len(r.cls)-1])
+		for i := len(r.cls) - 2; i >= 0; i-- {
+			t = fmt.Sprintf("& c%d %s", r.cls[i], t)
+		}
+		return t
 	case 'k':
 		var p []string
 		for _, c := range r.cls {
@@ -309,6 +317,14 @@ func exclusionMain(args []string) {
 	var cases []exCase
 	// the witness of the design: pattern a.b, entries xa/by
 	cases = append(cases, exCase{ents: []exEntry{{"xa", true}, {"xa/by", false}, {"ab", false}}, pats: []*reNode{{op: '&', a: &reNode{op: 'c', c: 'a'}, b: &reNode{op: '&', a: &reNode{op: '.'}, b: &reNode{op: 'c', c: 'b'}}}}})
+	// different pattern lists whose texts are equal once put end to end, one after the other in the same process: each list
+	// has its own exclusions (anything remembered from one call must not leak into the next)
+	lit := func(x string) *reNode { return &reNode{op: 's', cls: []byte(x)} }
+	chr := func(x byte) *reNode { return &reNode{op: 'c', c: x} }
+	pairTree := []exEntry{{"a", false}, {"b", true}, {"b/a", false}, {"ab", true}, {"ab/y", false}, {"ba", false}, {"aa", true}, {"aa/b", false}, {"y", false}}
+	for _, ps := range [][]*reNode{{lit("ab")}, {chr('a'), chr('b')}, {lit("ba")}, {chr('b'), chr('a')}, {chr('a'), chr('a')}, {lit("aa")}, {lit("aab")}, {lit("aa"), chr('b')}, {chr('a'), lit("ab")}} {
+		cases = append(cases, exCase{ents: pairTree, pats: ps})
+	}
 	for i := 0; i < n; i++ {
 		c := exCase{ents: genExTree(rnd)}
 		for k := rnd.Intn(4); k > 0; k-- {
